@@ -1429,7 +1429,8 @@ impl TickSpec {
 pub struct TickObs {
     pub rounds: Vec<RoundObs>,
     pub panic: Option<String>,
-    /// after a panic: hooks that have no pending input and were left without a decision
+    /// hooks for which the first pass of `run_hooks` ("if no nontrivial decision is possible,
+    /// make a trivial one") left no decision at all
     pub undecided: Vec<usize>,
 }
 
@@ -1454,6 +1455,7 @@ fn run_tick_spec(spec: &TickSpec) -> Vec<TickObs> {
         let mut rets = vec![false; n];
         let mut decisions = vec![None; n];
         let mut logs = vec![String::new(); n];
+        let mut undecided: Vec<usize> = vec![];
         let r = util::catch(|| {
             // literal transcription of `run_hooks`
             let mut remaining_decision_count = n;
@@ -1469,6 +1471,12 @@ fn run_tick_spec(spec: &TickSpec) -> Vec<TickObs> {
                         remaining_decision_count -= 1;
                     }
                 }
+                undecided = rigs
+                    .iter()
+                    .enumerate()
+                    .filter(|(_, rig)| rig.hook.current_decision().is_none() && !rig.hook.can_make_nontrivial_decision())
+                    .map(|(i, _)| i)
+                    .collect();
                 for (i, rig) in rigs.iter_mut().enumerate() {
                     let hook = &mut rig.hook;
                     if hook.current_decision().is_none() {
@@ -1501,12 +1509,7 @@ fn run_tick_spec(spec: &TickSpec) -> Vec<TickObs> {
             });
         }
         let stop = r.is_err();
-        let undecided = if stop {
-            rigs.iter().enumerate().filter(|(_, rig)| rig.hook.current_decision().is_none() && !rig.hook.can_make_nontrivial_decision()).map(|(i, _)| i).collect()
-        } else {
-            vec![]
-        };
-        ticks.push(TickObs { rounds, panic: r.err(), undecided });
+        ticks.push(TickObs { rounds, panic: r.err(), undecided: undecided.clone() });
         if stop {
             break;
         }
